@@ -5,9 +5,16 @@
 //! the implementation's reply is `ok <signed ns moved>` / `err <kind>` / `panic`.  The harness reads
 //! the fields itself (`timestamp()`, `timestamp_subsec_nanos()`, `offset()`), so the wall-clock stamp
 //! the model computes is independent of `timestamp_nanos_opt`.
+//! The same call is also sent at the value level: `rd.n.<op> yof secs frac dur.secs dur.nanos`
+//! (NaiveDateTime: packed date word, seconds of day, nanosecond field) and
+//! `rd.z.<op> yof secs frac off dur.secs dur.nanos` (DateTime<FixedOffset>: the UTC reading and the
+//! offset); the reply is the RETURNED VALUE in the same encoding (`ok yof secs frac [off]`), so the
+//! model's `timestamp_nanos_opt` of the (wall-clock) reading and its `original +- TimeDelta` are
+//! compared with the crate on every case (Props/C17.lean `naive_result`, `zoned_result`).
 //! Direct oracles (i128 arithmetic on the implementation's own results): multiple of the span on the
 //! wall-clock stamp, less than one span moved, trunc <= x <= round_up, nearer with ties up,
 //! multiples fixed, idempotence, the exact error conditions, no panic.
+use super::c01::yof;
 use crate::ctx::*;
 use chrono::{
     DateTime, DurationRound, FixedOffset, NaiveDate, NaiveDateTime, NaiveTime, RoundingError, SubsecRound,
@@ -42,6 +49,12 @@ trait Obs: Copy + PartialEq + std::fmt::Debug + DurationRound<Err = RoundingErro
     fn since(&self, o: &Self) -> TimeDelta;
     /// the crate's own stamp (`None` also when `naive_local` is not representable)
     fn crate_stamp(&self) -> Option<Option<i64>>;
+    /// value-level op prefix and encoding of the value (packed date word, seconds of day, field[, offset])
+    const VOP: &'static str;
+    fn enc(&self) -> String;
+}
+fn enc_naive(dt: &NaiveDateTime) -> String {
+    format!("{} {} {}", yof(&dt.date()), dt.time().num_seconds_from_midnight(), dt.time().nanosecond())
 }
 impl Obs for NaiveDateTime {
     const KIND: &'static str = "naive";
@@ -60,6 +73,10 @@ impl Obs for NaiveDateTime {
     fn crate_stamp(&self) -> Option<Option<i64>> {
         Some(self.and_utc().timestamp_nanos_opt())
     }
+    const VOP: &'static str = "rd.n";
+    fn enc(&self) -> String {
+        enc_naive(self)
+    }
 }
 impl Obs for DateTime<FixedOffset> {
     const KIND: &'static str = "fixed";
@@ -77,6 +94,10 @@ impl Obs for DateTime<FixedOffset> {
     }
     fn crate_stamp(&self) -> Option<Option<i64>> {
         guard(|| self.naive_local().and_utc().timestamp_nanos_opt()).ok()
+    }
+    const VOP: &'static str = "rd.z";
+    fn enc(&self) -> String {
+        format!("{} {}", enc_naive(&self.naive_utc()), self.offset().local_minus_utc())
     }
 }
 
@@ -161,6 +182,16 @@ fn case<T: Obs>(c: &mut Ctx, x: T, dur: TimeDelta, tag: &str) {
         let nm = op.name();
         let res = guard(|| op.call(x, dur));
         let line = format!("rd.{} {} {} {} {} {}", nm, x.utc_secs(), x.subsec(), x.off(), ds, dn);
+        // value level: the whole call on the value itself, reply = the returned value
+        let vline = format!("{}.{} {} {} {}", T::VOP, nm, x.enc(), ds, dn);
+        c.op(
+            &vline,
+            &match &res {
+                Err(()) => "panic".to_string(),
+                Ok(Err(e)) => err_name(*e).to_string(),
+                Ok(Ok(r)) => format!("ok {}", r.enc()),
+            },
+        );
         let what = |s: &str| format!("{}: {}", nm, s);
         let ctxs = format!("{:?} (wall stamp {}) by {} ns [{}]", x, w, span, tag);
         match res {
